@@ -168,7 +168,7 @@ LABELS = {'C01': ('C01',), 'C04': ('C04',), 'C06': ('C06', 'C06epoch'), 'C10': (
 
 def run_histories(chk, histories, jobs=8):
     """returns list of dicts per history: ops (resolved), impl segments, model segments"""
-    rc, impl = chk.run_impl('broker', histories, jobs=jobs, timeout=3000)
+    rc, impl = chk.run_impl('broker', histories, jobs=jobs, timeout=14000)
     resolved, impl_out = [], []
     for i, h in enumerate(histories):
         line = impl[i] if i < len(impl) else ''
@@ -179,7 +179,7 @@ def run_histories(chk, histories, jobs=8):
         else:
             resolved.append(h.replace('?', '-'))
             impl_out.append(['harness-output-missing: ' + line[:200]])
-    rc2, model = chk.run_model('broker', resolved, jobs=jobs, timeout=3000)
+    rc2, model = chk.run_model('broker', resolved, jobs=jobs, timeout=14000)
     out = []
     for i, h in enumerate(histories):
         m = model[i] if i < len(model) else ''
@@ -238,7 +238,7 @@ def analyse(chk, prop, results):
     return stats
 
 
-def standard_run(chk, prop, extra_histories=(), nquick=250, nthorough=6000):
+def standard_run(chk, prop, extra_histories=(), nquick=250, nthorough=4000):
     ok = vlib.standard_proof_phase(chk, TRUSTED, 'broker')
     chk.cov['rule'] = ('cases = operation histories on the broker (corpus scenarios first, then seeded random histories of 15-90 operations over 2-6 hosts, '
                        'uniform/skewed/odd layouts, ordered mode 12%); after EVERY operation the canonical store text and every cluster view and proxy view under '
